@@ -106,7 +106,26 @@ func effCmp(a an.PathAtom) (x, y *an.Expr, op token.Token, ok bool) {
 	if !a.Pos {
 		op = negate(op)
 	}
-	return e.Args[0], e.Args[1], op, true
+	x, y = e.Args[0], e.Args[1]
+	// a length is a non-negative integer: len < 1, len <= 0 say len == 0; len >= 1, len > 0 say len != 0
+	// (either operand order); one spelling for all of them
+	if y.Op == an.OpLen && x.Op != an.OpLen {
+		if _, isC := x.ConstInt(); isC {
+			x, y, op = y, x, flip(op)
+		}
+	}
+	if x.Op == an.OpLen {
+		if k, isC := y.ConstInt(); isC {
+			zero := &an.Expr{Op: an.OpConst, Cval: constant.MakeInt64(0), Typ: y.Typ}
+			switch {
+			case k == 1 && op == token.LSS, k == 0 && op == token.LEQ:
+				y, op = zero, token.EQL
+			case k == 1 && op == token.GEQ, k == 0 && op == token.GTR:
+				y, op = zero, token.NEQ
+			}
+		}
+	}
+	return x, y, op, true
 }
 
 func negate(op token.Token) token.Token {
